@@ -115,6 +115,10 @@ class Program:
         for m, (p, t, _) in self.mods.items():
             self._collect(m, None, t.body, m, None, p)
         self.n_callsites = 0
+        self.call_stats = None
+        if canonical:
+            from .inline import normalise_calls
+            self.call_stats = normalise_calls(self)
 
     # ------------------------------------------------------------------ registry
     def _collect(self, m, cls, body, prefix, parent, path):
